@@ -213,7 +213,8 @@ def _close(a, b):
 def _freeze(m):
     out = {}
     for k, v in m.objs.items():
-        out[k] = (list(v.df.columns), repr(v.df.to_numpy().tolist()))
+        # dimension 15: values, row labels, the dtype of every column and of the row labels, the class of the list
+        out[k] = (list(v.df.columns), repr(v.df.to_numpy().tolist()), repr(v.df.index.tolist()), repr(v.df.dtypes.tolist()), str(v.df.index.dtype), type(v).__name__)
     return out
 
 
@@ -314,7 +315,7 @@ def _judge(m, case, observe=None, sanity=True):
         if changed and ASSERT_INPUT_UNCHANGED:
             after = _freeze(m)
             k = next(k for k in before if before[k] != after[k])
-            failed.append(("sv_normalize_leaves_chart_unchanged", f"list {k}: columns {before[k][0]} -> {after[k][0]}"))
+            failed.append(("sv_normalize_leaves_chart_unchanged", f"list {k}: columns {before[k][0]} -> {after[k][0]}; dtypes {before[k][3]} -> {after[k][3]}; labels {before[k][2]} -> {after[k][2]}"))
 
     steps = dict(d=dominant, s=scroll, n=normalize)
     for letter in given.get("order", "dsn"):
@@ -423,6 +424,25 @@ def _random_case(rng, game, plain=False):
         case["stops"] = [[float(rng.choice(grid)), 25.0]] if rng.random() < 0.3 else []
     if plain:
         return case
+    # ---- dimension 17: which KIND of object is the first / the last of the chart (a fifth of the cases forces one of the extremes)
+    r = rng.random()
+    if r < 0.1 and k >= 2:
+        # every note (and SV) sits exactly on the FIRST tempo point: the later tempo points come after the last note, the last object of the
+        # chart is a tempo point, the first note / first SV / first tempo point coincide
+        for row in case["hits"] + case["holds"] + case["svs"]:
+            row[0] = t1
+        case["kind_order"] = "notes_on_first_tempo_point_tempo_points_last"
+    elif r < 0.2 and game in SV_GAMES:
+        # an SV is the very last object (after every note and tempo point) and, where the grid allows, another one the very first
+        top = grid[7]
+        for row in case["hits"] + case["holds"]:
+            if row[0] >= top:
+                row[0] = grid[6]
+        case["svs"] = [e for e in case["svs"] if e[0] < top] + [[top, rng.choice(mults)]]
+        if t1 > grid[0]:
+            case["svs"].insert(0, [grid[0], rng.choice(mults)])
+        case["svs"].sort(key=lambda e: e[0])
+        case["kind_order"] = "sv_first_and_last"
     # ---- how the lists are put together: row order and row labels, for every list kind on its own
     layout = {}
     for kind in KINDS:
@@ -525,7 +545,8 @@ def tempo_analysis_vs_definitions(rep):
                  "sm (30% with a stop), bms, o2j, base Map: dominant_bpm and scroll_speed without SVs. "
                  f"One case in 4 keeps the original scope (time-ordered lists, default labels, floats, grid {TIME_GRID}); in the others: time grid base / negative (-450..550) / large (+1 h) / "
                  "fraction (x.5, x.999, 1/16 ms) / tight (0.25 ms steps), 20% of the integral grids int-typed (python ints, all-int bpm column), 10% numpy scalars; EACH of the four lists (tempo, SV, hits, holds) "
-                 "independently in 60%: rows shuffled (70%) and built by .sorted() / .sorted(reverse=True) / append(item, sort=True) / append(list) / a filter (boolean mask or after()) that removes 1..3 interleaved rows / "
+                 "10%: every note and SV exactly on the FIRST tempo point, the other tempo points after the last note (the last object is a tempo point); 10% (osu / quaver): an SV as the very last object and, where the grid allows, as the very first; "
+                 "the input snapshot of sv_normalize (counted, see assert_input_unchanged) holds values, row labels, column dtypes, label dtype and list class; EACH of the four lists independently in 60%: rows shuffled (70%) and built by .sorted() / .sorted(reverse=True) / append(item, sort=True) / append(list) / a filter (boolean mask or after()) that removes 1..3 interleaved rows / "
                  "from a DataFrame with permuted, reversed, offset, gappy, duplicated or negative row labels; 40%: the three functions in another order, 10% with one of them called twice")
     rep.rule = "a case is one (game, tempo points, SVs, notes, override, construction of each list, call form and order); non-trivial when it has >= 2 tempo points or >= 1 SV"
     order = ["osu", "qua", "osu", "qua", "sm", "bms", "osu", "qua", "o2j", "base", "osu", "qua"]
@@ -538,6 +559,8 @@ def tempo_analysis_vs_definitions(rep):
         rep.case(case, nontrivial=(len(case["bpms"]) >= 2 or len(case["svs"]) >= 1))
         for f in _features(case):
             feats[f] += 1
+        if case.get("kind_order"):
+            feats["kind_order:" + case["kind_order"]] += 1
         for what, d in _run_case(case, obs):
             rep.fail(what, case, d)
     rep.extra["feature_counts"] = dict(sorted(feats.items()))
